@@ -2,6 +2,9 @@ package v2
 
 var zzRegistry = map[string]func(int){
 	"ZZ_C18":     ZZ_C18,
+	"ZZ_C18Two":  ZZ_C18Two,
+	"ZZ_C18Args": ZZ_C18Args,
+	"ZZ_C10Bulk": ZZ_C10Bulk,
 	"ZZ_C09Bulk": ZZ_C09Bulk,
 	"ZZ_C09Http": ZZ_C09Http,
 	"ZZ_C10Http": ZZ_C10Http,
